@@ -42,6 +42,12 @@ func (x *g) genService(i int, used map[string]bool) {
 		}
 		x.s.AddFeature("service-error")
 	}
+	// refer to an API-level error definition (its HTTP mapping is inherited from the API)
+	if len(x.s.API.Errors) > 0 && x.chance(2, 3) {
+		ae := x.s.API.Errors[0]
+		sv.Errors = append(sv.Errors, &spec.ErrorDecl{Name: ae.Name})
+		x.s.AddFeature("api-error-referenced")
+	}
 	if len(x.s.Schemes) > 0 {
 		switch x.r.Intn(3) {
 		case 0:
